@@ -201,6 +201,17 @@ func (c *concretizer) tj(v Value) *TJ {
 			}
 			return &TJ{T: "map", V: pairs}
 		}
+		if x.InputMap {
+			// the input as it was given: entries the program added are left out, overwritten or deleted
+			// input entries are rendered with their original value
+			for _, e := range x.Entries {
+				if e.Input {
+					k := c.tj(e.K)
+					pairs = append(pairs, []interface{}{k.V, c.tj(e.OrigV)})
+				}
+			}
+			return &TJ{T: "map", V: pairs}
+		}
 		for _, e := range x.live() {
 			k := c.tj(e.K)
 			pairs = append(pairs, []interface{}{k.V, c.tj(e.V)})
